@@ -2,3 +2,4 @@
 use std::cmp;
 use crate::grep_matcher::{LineTerminator, Match, Matcher};
 use crate::line_buffer;
+use crate::line_buffer::{BufferAllocation, LineBuffer, LineBufferBuilder, DEFAULT_BUFFER_CAPACITY};
